@@ -92,6 +92,136 @@ def NameInv (hash : Bytes → Digest) (st : Store) : Prop :=
   ∀ n m, lookupM n st.manifests = some (.readable m) →
     ∀ l ∈ m.all, ∃ d c, l.digest = .ok d ∧ st.blobs d = some c ∧ hash c = d
 
+/-! ## Success -/
+
+/-- **A successful pull leaves the published, digest-verified model** — for every store satisfying
+    `BlobInv`, every registry, every fault script, every manifest whose digests are pairwise
+    distinct: if `pull` reports success then every layer of the served manifest (config included) is
+    addressable, stored, and its bytes hash to its digest; and the name resolves to the served
+    manifest.  (Without `Nodup` the statement is false: `dup_digest_skips_verification`.) -/
+theorem pull_success_complete (cfg : Cfg) (hash : Bytes → Digest) (name : Name) (reg : Registry)
+    (sc : Scripts) (st st' : Store) (log : Log)
+    (hinv : BlobInv hash st) (hnodup : (reg.manifest.all.map (·.digest)).Nodup)
+    (h : pull cfg hash name reg sc st = (.ok (), st', log)) :
+    (∀ l ∈ reg.manifest.all, ∃ d c, l.digest = .ok d ∧ st'.blobs d = some c ∧ hash c = d) ∧
+    lookupM name st'.manifests = some (.readable reg.manifest) := by
+  rcases pull_cases h with ⟨hne, _⟩ | ⟨_, _, _, hne, _⟩ | ⟨net0, s, ov, st2, hdl, hv, _, hcase⟩
+  · exact absurd rfl hne
+  · exact absurd rfl hne
+  · rcases hcase with ⟨hne, ho, _⟩ | ⟨hov, _, hman, hblobs⟩
+    · exact absurd ho.symm hne
+    · subst hov
+      obtain ⟨hst2, hver⟩ := verifyLoop_ok _ hv
+      subst hst2
+      refine ⟨?_, by rw [hman]; exact lookupM_insertM _ _ _⟩
+      intro l hl
+      obtain ⟨d, c, hd, hc, _⟩ := dlLoop_ok_all _ hdl l hl
+      refine ⟨d, c, hd, ?_, ?_⟩
+      · -- pruning does not remove a served layer
+        rw [hblobs, prunedBlobs_keep]
+        · exact hc
+        · rw [← hd]; exact List.mem_map_of_mem hl
+      · cases hsk : getSkip d s.skip with
+        | false =>
+          obtain ⟨c', hc', hh⟩ := hver l hl d hd hsk
+          rw [hc] at hc'; cases hc'; exact hh
+        | true =>
+          have := dlLoop_ok_nodup _ hdl hnodup l hl d hd hsk
+          rw [hc] at this
+          exact hinv d c this.symm
+
+/-- The size clause: the code never compares sizes (`size_lie_accepted`); it follows from the digest
+    clause exactly when the declared size is the size of whatever hashes to the digest (which is
+    what an honest manifest declares, and what collision resistance gives). -/
+theorem pull_success_sizes (cfg : Cfg) (hash : Bytes → Digest) (name : Name) (reg : Registry)
+    (sc : Scripts) (st st' : Store) (log : Log)
+    (hinv : BlobInv hash st) (hnodup : (reg.manifest.all.map (·.digest)).Nodup)
+    (hsize : ∀ l ∈ reg.manifest.all, ∀ d c, l.digest = .ok d → hash c = d → c.length = l.size)
+    (h : pull cfg hash name reg sc st = (.ok (), st', log)) :
+    ∀ l ∈ reg.manifest.all, ∃ d c, l.digest = .ok d ∧ st'.blobs d = some c ∧ hash c = d ∧
+      c.length = l.size := by
+  intro l hl
+  obtain ⟨d, c, hd, hc, hh⟩ := (pull_success_complete cfg hash name reg sc st st' log hinv hnodup h).1 l hl
+  exact ⟨d, c, hd, hc, hh, hsize l hl d c hd hh⟩
+
+/-! ## Failure -/
+
+/-- **A failed (or crashed) pull never changes what was there**: every blob of the old store is still
+    stored with the same bytes and every manifest is unchanged.  (It can *add* blobs: F6.) -/
+theorem pull_fail_preserves_store (cfg : Cfg) (hash : Bytes → Digest) (name : Name) (reg : Registry)
+    (sc : Scripts) (st st' : Store) (o : Outcome) (log : Log) (hne : o ≠ .ok ())
+    (h : pull cfg hash name reg sc st = (o, st', log)) :
+    (∀ d c, st.blobs d = some c → st'.blobs d = some c) ∧ st'.manifests = st.manifests := by
+  rcases pull_cases h with ⟨_, hst, _⟩ | ⟨_, s, hdl, _, hst, _⟩ | ⟨net0, s, ov, st2, hdl, hv, _, hcase⟩
+  · subst hst; exact ⟨fun _ _ h => h, rfl⟩
+  · subst hst
+    obtain ⟨hm, hk, _, _⟩ := dlLoop_preserve _ hdl
+    exact ⟨hk, hm⟩
+  · rcases hcase with ⟨_, _, hst⟩ | ⟨_, ho, _⟩
+    · subst hst
+      obtain ⟨hm, hk, _, _⟩ := dlLoop_preserve _ hdl
+      obtain ⟨vm, vx⟩ := verifyLoop_any _ hv
+      refine ⟨?_, vm.trans hm⟩
+      intro d c hc
+      have hc1 := hk d c hc
+      rcases vx d with e | ⟨hf, l, hl, hd⟩
+      · rw [e]; exact hc1
+      · have := dlLoop_skip_true _ hdl (x := d) hc (Or.inl ⟨l, hl, hd⟩)
+        rw [this] at hf; cases hf
+    · exact absurd ho hne
+
+/-- **After a failed pull no name resolves to a manifest with missing or corrupt layers**
+    (given that this was so before). -/
+theorem pull_fail_preserves_names (cfg : Cfg) (hash : Bytes → Digest) (name : Name) (reg : Registry)
+    (sc : Scripts) (st st' : Store) (o : Outcome) (log : Log) (hne : o ≠ .ok ())
+    (hinv : NameInv hash st) (h : pull cfg hash name reg sc st = (o, st', log)) :
+    NameInv hash st' := by
+  obtain ⟨hb, hm⟩ := pull_fail_preserves_store cfg hash name reg sc st st' o log hne h
+  intro n m hn l hl
+  rw [hm] at hn
+  obtain ⟨d, c, hd, hc, hh⟩ := hinv n m hn l hl
+  exact ⟨d, c, hd, hb d c hc, hh⟩
+
+/-- `pull_fail_preserves` (`BlobInv` after a failed pull) is false: F6.  What holds: a failed pull
+    changes the blob map only at digests it renamed into place itself; so if it renamed nothing
+    the blob map — and `BlobInv` — is exactly what it was. -/
+theorem pull_fail_blobs_partial (cfg : Cfg) (hash : Bytes → Digest) (name : Name) (reg : Registry)
+    (sc : Scripts) (st st' : Store) (o : Outcome) (log : Log) (hne : o ≠ .ok ())
+    (h : pull cfg hash name reg sc st = (o, st', log)) :
+    (∀ d, d ∉ log.renamed → st'.blobs d = st.blobs d) ∧
+    (log.renamed = [] → BlobInv hash st → BlobInv hash st') := by
+  have main : ∀ d, d ∉ log.renamed → st'.blobs d = st.blobs d := by
+    rcases pull_cases h with ⟨_, hst, _⟩ | ⟨_, s, hdl, _, hst, hr⟩ | ⟨net0, s, ov, st2, hdl, hv, hr, hcase⟩
+    · subst hst; exact fun _ _ => rfl
+    · subst hst
+      obtain ⟨_, _, _, hc⟩ := dlLoop_preserve _ hdl
+      intro d hd
+      rcases hc d with e | r
+      · exact e
+      · rw [hr] at hd; exact absurd r hd
+    · rcases hcase with ⟨_, _, hst⟩ | ⟨_, ho, _⟩
+      · subst hst
+        obtain ⟨_, _, _, hc⟩ := dlLoop_preserve _ hdl
+        obtain ⟨_, vx⟩ := verifyLoop_any _ hv
+        intro d hd
+        rw [hr] at hd
+        have e1 : s.st.blobs d = st.blobs d := by
+          rcases hc d with e | r
+          · exact e
+          · exact absurd r hd
+        rcases vx d with e | ⟨hf, l, hl, hdl'⟩
+        · rw [e, e1]
+        · obtain ⟨d', _, hd', _, hor⟩ := dlLoop_ok_all _ hdl l hl
+          rw [hdl'] at hd'; cases hd'
+          rcases hor with ht | hrn
+          · rw [ht] at hf; cases hf
+          · exact absurd hrn hd
+      · exact absurd ho hne
+  refine ⟨main, ?_⟩
+  intro hnil hinv d c hc
+  rw [main d (by simp [hnil])] at hc
+  exact hinv d c hc
+
 /-! ## Concrete witnesses (toy hash = first byte) -/
 
 def toyHash (b : Bytes) : Digest := b.take 1
@@ -122,6 +252,18 @@ theorem F6_failed_pull_then_honest_retry_installs_corrupt_layer :
     r1.1 = .err .notfound ∧ r1.2.2.renamed = [dA] ∧
     r2.1 = .ok () ∧ r2.2.1.blobs dA = some [9, 9] ∧ toyHash [9, 9] ≠ dA ∧
     lookupM 0 r2.2.1.manifests = some (.readable regAB.manifest) := by decide
+
+/-- non-vacuity of `pull_success_complete` / `pull_success_sizes`: an honest two-layer pull from the
+    empty store succeeds, its digests are distinct, its sizes are honest for the stored bytes -/
+example : (pull cfgW toyHash 0 regAB Scripts.honest st0).1 = .ok () ∧
+    (regAB.manifest.all.map (·.digest)).Nodup ∧
+    (pull cfgW toyHash 0 regAB Scripts.honest st0).2.1.blobs dB = some cB := by decide
+
+/-- non-vacuity of the failure theorems: `scF6` is a failing attempt that renames a blob, and a
+    404 on the manifest is a failing attempt that renames nothing -/
+example : (pull cfgW toyHash 0 regAB scF6 st0).1 ≠ .ok () ∧
+    (pull cfgW toyHash 0 regAB ⟨[.notfound], [], []⟩ st0).1 = .err .manifest ∧
+    (pull cfgW toyHash 0 regAB ⟨[.notfound], [], []⟩ st0).2.2.renamed = [] := by decide
 
 /-- **Witness (repeated digest)**: `skipVerify` is keyed by digest and the second occurrence is a cache
     hit, so a freshly downloaded corrupt blob is never verified and the pull succeeds. -/
